@@ -2,6 +2,8 @@ package values
 
 import (
 	"reflect"
+
+	yaml "gopkg.in/yaml.v2"
 )
 
 var (
@@ -14,6 +16,20 @@ func Equal(a, b any) bool { //nolint: gocyclo
 	a, b = ToLiquid(a), ToLiquid(b)
 	if a == nil || b == nil {
 		return a == b
+	}
+	// an ordered map is a map: it equals another ordered map with equal entries and never an array; its
+	// entries compare by Liquid equality of key and value, not as Go structs
+	ma, aIsMap := a.(yaml.MapSlice)
+	mb, bIsMap := b.(yaml.MapSlice)
+	if aIsMap != bIsMap {
+		return false
+	}
+	if aIsMap {
+		return mapSliceValue{slice: ma}.Equal(mapSliceValue{slice: mb})
+	}
+	if ia, ok := a.(yaml.MapItem); ok {
+		ib, ok := b.(yaml.MapItem)
+		return ok && Equal(ia.Key, ib.Key) && Equal(ia.Value, ib.Value)
 	}
 	ra, rb := reflect.ValueOf(a), reflect.ValueOf(b)
 	switch joinKind(ra.Kind(), rb.Kind()) {
